@@ -229,6 +229,17 @@ def spec_csdn(D, d, S, s, names):
     return (2 if cnt == len(names) else 1 if cnt else 0), d
 
 
+def sp_covers(a, b):
+    """StateSpaceCovers(a, b)"""
+    if b[1] in names_of(a):
+        return True
+    return b[0] == 'C' and all(sp_covers(a, c) for c in b[2])
+
+
+def common_names(D, S):
+    return sorted(set(spec_subs(D)) & set(spec_subs(S)))
+
+
 def atom_bytes(a):
     if a[0] == 'f':
         return struct.pack("<Q", int(a[1:]))
@@ -367,6 +378,38 @@ def gen_related(r, names, A):
     return "common-components", ('C', names.fresh(), pick)
 
 
+def gen_equal_dim(r, names):
+    """two spaces sharing several components of EQUAL dimension under different names (pos/vel/acc, SE3 parts listed
+    separately, ...) together with components of other dimensions; the shared nodes are the same named trees"""
+    kind = r.below(4)
+    if kind == 0:       # k same-dimension real vectors
+        n = r.range(1, 3)
+        shared = [('R', names.fresh(), n) for _ in range(r.range(2, 4))]
+    elif kind == 1:     # dimension-1 zoo: SO2, Time, Discrete, R1
+        shared = [r.choice([('S2',), ('T',), ('D',)]) + (names.fresh(),) if r.chance(2, 3) else ('R', names.fresh(), 1)
+                  for _ in range(r.range(2, 4))]
+    elif kind == 2:     # dimension 3: R3 and SO3 (the parts of SE3), plus a second R3
+        shared = [('R', names.fresh(), 3), ('S3', names.fresh()), ('R', names.fresh(), 3)][:r.range(2, 3)]
+    else:               # equal-dimension compounds: two [R1, SO2]-like pairs
+        shared = [('C', names.fresh(), [('R', names.fresh(), 1), ('S2', names.fresh())]) for _ in range(2)]
+        shared.append(('R', names.fresh(), 2))
+    other_a = [gen_leaf(r, names, False) for _ in range(r.range(0, 2))]
+    other_b = [gen_leaf(r, names, False) for _ in range(r.range(0, 2))]
+    a_parts = shared + other_a
+    r.shuffle(a_parts)
+    if kind == 2 and r.chance(1, 2):
+        # SE3-like: the parts grouped in a sub-compound on one side, listed separately on the other
+        a_parts = [('C', names.fresh(), shared[:2])] + shared[2:] + other_a
+    keep = list(shared)
+    r.shuffle(keep)
+    keep = keep[:max(2, r.range(2, len(keep)))]
+    b_parts = keep + other_b
+    r.shuffle(b_parts)
+    if r.chance(1, 3):
+        b_parts = [('C', names.fresh(), b_parts[:2])] + b_parts[2:]
+    return ('C', names.fresh(), a_parts), ('C', names.fresh(), b_parts)
+
+
 def names_of_all(sp):
     out = [sp[1]]
     for c in kids(sp):
@@ -432,9 +475,30 @@ def gen_state_script(r):
                 if r.chance(3, 4):
                     sc.add("csd %d %d" % (d, s), op="csd", d=d, s=s, rel=kind)
                 elif no_wrapper_top(A) and no_wrapper_top(B):
-                    pool = names_of(A) + names_of(B) + [names.fresh()]
-                    ns = [r.choice(pool) for _ in range(r.range(0, 3))]
-                    sc.add(("csdn %d %d %d %s" % (d, s, len(ns), " ".join(map(str, ns)))).strip(), op="csdn", d=d, s=s, names=ns, rel=kind)
+                    if r.chance(1, 2):
+                        sc.add("common %d %d" % (d, s), op="common", d=d, s=s, rel=kind)
+                    else:
+                        pool = names_of(A) + names_of(B) + [names.fresh()]
+                        ns = [r.choice(pool) for _ in range(r.range(0, 3))]
+                        sc.add(("csdn %d %d %d %s" % (d, s, len(ns), " ".join(map(str, ns)))).strip(), op="csdn", d=d, s=s, names=ns, rel=kind)
+    # shared components of equal dimension (the std::set ordering of getCommonSubspaces must keep them apart):
+    # fresh, different destination contents for each of the three ways to copy, in both directions
+    for _ in range(r.range(1, 2)):
+        A, B = gen_equal_dim(r, names)
+        a, b = add_space(A), add_space(B)
+        for (x, y) in ((a, b), (b, a)):
+            src = add_state(y, r.chance(1, 2))
+            for how in ("common", "csd", "csdn"):
+                dst = add_state(x, False)      # sentinel contents (arbitrary bit patterns): an untouched component shows
+                if how == "common":
+                    sc.add("common %d %d" % (dst, src), op="common", d=dst, s=src, rel="equal-dimension")
+                elif how == "csd":
+                    sc.add("csd %d %d" % (dst, src), op="csd", d=dst, s=src, rel="equal-dimension")
+                else:
+                    ns = common_names(spaces[x], spaces[y])
+                    r.shuffle(ns)
+                    ns = ns[:r.range(0, len(ns))] + ([names.fresh()] if r.chance(1, 4) else [])
+                    sc.add(("csdn %d %d %d %s" % (dst, src, len(ns), " ".join(map(str, ns)))).strip(), op="csdn", d=dst, s=src, names=ns, rel="equal-dimension")
     return sc
 
 
@@ -491,7 +555,11 @@ def gen_pd_script(r, big=False, quick=True):
     #                      object twice (out-edge pass and in-edge pass) and crashes; that is a defect of graph
     #                      editing, not of copying/persisting, so such removals are not generated (see notes/C09.md)
 
+    edgeless = r.chance(1, 3)      # vertices only: a truncation inside the vertex block is then the only way to fail
+
     def edge(a, b):
+        if edgeless:
+            return
         w = fbits(r.uniform(0, 10)) if r.chance(4, 5) else rand_bits(r)
         line = "pde %d %d %d" % (a, b, w)
         if cdim is not None:
@@ -682,6 +750,25 @@ def oracle(sc, impl, rc, err):
                 fail("copyStateData-transfer", "dest after %s is %s; specification says %s (relation %s)" % (op, f.get("atoms", "")[:120], join_or(nd)[:120], meta["rel"]))
             elif f.get("res") != str(res):
                 fail("copyStateData-result", "result code %s; specification says %d (relation %s)" % (f.get("res"), res, meta["rel"]))
+        elif op == "common":
+            (dsp, d), (ssp, s) = states[meta["d"]], states[meta["s"]]
+            D, S = spaces[dsp], spaces[ssp]
+            common = common_names(D, S)
+            res, nd = spec_csdn(D, d, S, s, common)
+            states[meta["d"]] = (dsp, nd)
+            got = [] if f.get("names", "-") == "-" else list(map(int, f["names"].split(",")))
+            node = lambda nm: find_node(D, nm)[0]
+            lost = [n for n in common if n not in got and not any(m != n and sp_covers(node(m), node(n)) for m in got)]
+            if any(n not in common for n in got):
+                fail("common-subspaces", "getCommonSubspaces returned %s, common names are %s" % (got, common))
+            elif lost:
+                fail("common-subspaces", "getCommonSubspaces returned %s: the common subspace(s) %s (of %s) are neither returned nor covered by a returned one" % (got, lost, common), rel=meta["rel"])
+            elif any(a != b and sp_covers(node(a), node(b)) and not sp_covers(node(b), node(a)) for a in got for b in got):
+                fail("common-subspaces", "getCommonSubspaces returned %s with one element covered by another" % got)
+            elif f.get("atoms") != join_or(nd):
+                fail("copyStateData-transfer", "dest after the common-subspace copy is %s; specification says %s (relation %s)" % (f.get("atoms", "")[:120], join_or(nd)[:120], meta["rel"]))
+            elif f.get("res") != "2":
+                fail("copyStateData-result", "result code %s after copying the common subspaces; specification says 2" % f.get("res"))
         elif op == "ss":
             imgs = [image_hex(states[s][1]) for s in meta["sids"]]
             same_sig = spec_sig(meta["sp"]) == spec_sig(meta["sp2"])
@@ -912,7 +999,7 @@ def judge(ck, hbin, sc, tag, compare=True, leak_stacks=True, res=None):
                 ck.count("space:zero-length-component")
             if depth(sp) >= 3:
                 ck.count("space:depth>=3")
-        if m.get("op") in ("csd", "csdn"):
+        if m.get("op") in ("csd", "csdn", "common"):
             ck.count("csd-relation:" + m["rel"])
             res = kv(o).get("res")
             ck.count("csd-result:" + str(res))
@@ -990,6 +1077,8 @@ def script_from_lines(lines):
             sc.add(line, op=op, d=int(t[1]), s=int(t[2]), rel=rel)
         elif op == "csdn":
             sc.add(line, op=op, d=int(t[1]), s=int(t[2]), names=list(map(int, t[4:])), rel=rel)
+        elif op == "common":
+            sc.add(line, op=op, d=int(t[1]), s=int(t[2]), rel=rel)
         elif op == "ss":
             sc.add(line, op=op, sids=list(map(int, t[5:])), sp=spaces[int(t[1])], sp2=spaces[int(t[2])])
         elif op == "pdnew":
@@ -1028,7 +1117,8 @@ def setup(ck):
 
 def run(ck):
     ck.rule = ("scripts over random nested spaces (depth <= 3, zero-length components, wrappers): state scripts (serialize/"
-               "deserialize/clone/copy/reals/copyStateData between related spaces), StateStorage scripts and PlannerData scripts "
+               "deserialize/clone/copy/reals/copyStateData (both overloads, and getCommonSubspaces + copy) between related spaces incl. "
+               "several shared components of equal dimension), StateStorage scripts and PlannerData scripts (a third without edges) "
                "(geometric and control) each ending in store -> load -> corruption sweep; a script is non-trivial if it performs a "
                "partial copy or a storage round trip with its truncation sweep; distinct by script text")
     ck.trusted += ["harness/copy.cpp fills and dumps states with its own typed walk over the state tree; it identifies a "
@@ -1056,11 +1146,11 @@ def run(ck):
     judge(ck, hbin, gen_wc_probe(), "probe-wrapper-of-compound", compare=False)
     quick = ck.tier == "quick"
     jobs = []
-    for i in range(60 if quick else 500):
+    for i in range(90 if quick else 500):
         jobs.append(("state", gen_state_script(ck.rng.fork("state%d" % i))))
-    for i in range(40 if quick else 300):
+    for i in range(50 if quick else 300):
         jobs.append(("states-archive", gen_storage_script(ck.rng.fork("ss%d" % i))))
-    for i in range(70 if quick else 500):
+    for i in range(100 if quick else 500):
         jobs.append(("planner-data-archive", gen_pd_script(ck.rng.fork("pd%d" % i))))
     for i in range(1 if quick else 6):
         jobs.append(("states-archive-large", gen_storage_script(ck.rng.fork("ssbig%d" % i), big=True, quick=quick)))
